@@ -14,7 +14,7 @@ boolean literal flip, `!` dropped from a condition.  Survivors the checks do not
 import json, os, re, subprocess, sys, concurrent.futures, shutil
 
 VERIF = os.path.dirname(os.path.dirname(os.path.abspath(__file__)))
-OUT = os.path.join(VERIF, "mutants")
+OUT = os.path.join(VERIF, "mutants", os.environ.get("MUT_BATCH", "b1"))
 FILES = {
     "dolby_vision/src/rpu/dovi_rpu.rs": ["C01", "C03", "C04", "C08"],
     "dolby_vision/src/rpu/rpu_data_header.rs": ["C01", "C02", "C03", "C08"],
@@ -47,7 +47,24 @@ FILES = {
     "src/dovi/rpu_info.rs": ["C16", "C19"],
     "src/dovi/hdr10plus_utils.rs": ["C18"],
     "src/dovi/mod.rs": ["C14", "C01", "C09"],
+    "dolby_vision/src/capi.rs": ["C20"],
+    "dolby_vision/src/c_structs/rpu_data_header.rs": ["C20"],
+    "dolby_vision/src/c_structs/rpu_data_mapping.rs": ["C20"],
+    "dolby_vision/src/c_structs/vdr_dm_data.rs": ["C20"],
+    "dolby_vision/src/c_structs/extension_metadata.rs": ["C20"],
+    "dolby_vision/src/c_structs/rpu.rs": ["C20"],
+    "dolby_vision/src/rpu/extension_metadata/blocks/level3.rs": ["C01", "C02", "C03"],
+    "dolby_vision/src/rpu/extension_metadata/blocks/level4.rs": ["C01", "C02", "C03"],
+    "dolby_vision/src/rpu/extension_metadata/blocks/level254.rs": ["C01", "C02", "C03"],
+    "dolby_vision/src/rpu/extension_metadata/blocks/level255.rs": ["C01", "C02", "C03"],
+    "dolby_vision/src/rpu/extension_metadata/primaries.rs": ["C11"],
+    "src/dovi/generator.rs": ["C10", "C11", "C17"],
+    "src/dovi/rpu_extractor.rs": ["C07"],
+    "src/dovi/converter.rs": ["C05"],
+    "src/dovi/demuxer.rs": ["C05", "C06"],
+    "src/dovi/remover.rs": ["C05"],
 }
+FILES = {f: c for f, c in FILES.items() if os.path.exists(os.path.join("/repo", f))}
 OPS = [
     (r"(?<![<>=!\-])<=(?!=)", "<", "le->lt"), (r"(?<![<>=!\-])>=(?!=)", ">", "ge->gt"),
     (r"(?<![<>=!\-&])\s<\s(?![<=])", " <= ", "lt->le"), (r"(?<![<>=!\-])\s>\s(?![>=])", " >= ", "gt->ge"),
